@@ -1,0 +1,68 @@
+//go:build verif
+
+// Contracts for the verif build tag: //@ comment blocks read by /verif/gocv.
+
+package format
+
+//@ nonnil-field BufferedFormatter.Formatter
+
+//@ func NewFormatter
+//@ props C06
+//@ ensures[fresh] result != nil && fresh(result) && result.operationType == "query" && result.operationName == nil
+//@ modifies fresh
+//@ end
+
+//@ func NewBufferedFormatter
+//@ props C06
+//@ ensures[fresh] result != nil && fresh(result) && result.Formatter != nil && fresh(result.Formatter) && result.Formatter.operationType == "query" && result.Formatter.operationName == nil
+//@ modifies fresh
+//@ end
+
+//@ func (*Formatter).WithSchema
+//@ props C06
+//@ requires f != nil
+//@ ensures[self] result == f && f.operationType == old(f.operationType)
+//@ modifies f.schema
+//@ end
+
+//@ func (*Formatter).WithOperationType
+//@ props C06
+//@ requires f != nil
+//@ ensures[self] result == f && f.operationType == operationType
+//@ modifies f.operationType
+//@ end
+
+//@ func (*Formatter).WithOperationName
+//@ props C06
+//@ requires f != nil
+//@ ensures[self] result == f && f.operationType == old(f.operationType) && f.operationName != nil && *f.operationName == operationName
+//@ modifies f.operationName, fresh
+//@ end
+
+//@ func (*BufferedFormatter).WithSchema
+//@ props C06
+//@ requires f != nil && f.Formatter != nil
+//@ ensures[self] result == f && f.Formatter == old(f.Formatter) && f.Formatter.operationType == old(f.Formatter.operationType)
+//@ modifies f.Formatter.schema
+//@ end
+
+//@ func (*BufferedFormatter).WithOperationType
+//@ props C06
+//@ requires f != nil && f.Formatter != nil
+//@ ensures[self] result == f && f.Formatter == old(f.Formatter) && f.Formatter.operationType == operationType
+//@ modifies f.Formatter.operationType
+//@ end
+
+//@ func (*BufferedFormatter).WithOperationName
+//@ props C06
+//@ requires f != nil && f.Formatter != nil
+//@ ensures[self] result == f && f.Formatter == old(f.Formatter) && f.Formatter.operationType == old(f.Formatter.operationType)
+//@ modifies f.Formatter.operationName, fresh
+//@ end
+
+//@ func (*BufferedFormatter).FormatSelectionSet
+//@ props C06
+//@ requires f != nil && f.Formatter != nil
+//@ ensures[op] f.Formatter == old(f.Formatter) && f.Formatter.operationType == old(f.Formatter.operationType)
+//@ modifies-assumed fresh, all(Formatter.writer), all(Formatter.indentSize), all(Formatter.padNext), all(Formatter.lineHead)
+//@ end
